@@ -235,6 +235,62 @@ def run(ctx: core.Ctx):
         ctx.case(("h", ci), nontrivial=any(len(f) for v in expected.values() for f in v["fuzzy"]))
         if ci in (3, 40):
             ctx.sample({"engine": E["name"], "rows": case["rows"], "partitions": len(parts_list)})
+    # one batch of several thousand rows against the same rows as floats, one at a time (the float mode is what the histories
+    # above compare with the specification): an internal chunk or size threshold must not show
+    big = 0
+    for E in engines_for(ctx.quick):
+        nm = E["name"]
+        if nm not in ("base", "base+lp1-defnan-lr0", "ts-WeightedAverage-none", "nan-under-connectives", "hedged-output-antecedent", "two-blocks") and not (not ctx.quick and big < 40):
+            continue
+        if any(o["defuzzifier"]["cls"] in TIE_PRONE or o["defuzzifier"].get("resolution") == 1 for o in E["outputs"]):
+            continue
+        pool = rows_for(E, limit=60, rng=rng)
+        n = 2600 if big % 2 else 4100
+        rows = [rng.choice(pool) for _ in range(n)]
+        big += 1
+        ctx.count()
+        try:
+            ef = build_engine(fl, E)
+            fo, ff = [], []
+            for r in rows:
+                for iv, x in zip(ef.input_variables, r):
+                    iv.value = to_float(x)
+                ef.process()
+                o1, f1 = per_row_obs(ef, 1)
+                fo.append([float(a[0]) for a in o1])
+                ff.append([[(nm_, float(d[0]), im) for nm_, d, im in acts] for acts in f1])
+        except Exception:       # the float mode refuses some row of this engine: exception parity is judged on the short histories
+            continue
+        for mode in ("arrays", "matrix"):
+            eb = build_engine(fl, E)
+            try:
+                if mode == "arrays":
+                    for j, iv in enumerate(eb.input_variables):
+                        iv.value = np.array([to_float(r[j]) for r in rows])
+                else:
+                    eb.input_values = np.array([[to_float(x) for x in r] for r in rows])
+                eb.process()
+            except Exception as ex:
+                ctx.violation(f"large-batch/{mode}/raises-{type(ex).__name__}", {"engine": E, "rows": n}, "the values of the rows one at a time", f"{type(ex).__name__}: {ex}")
+                continue
+            ob, fb = per_row_obs(eb, n)
+            bad = None
+            for r in range(n):
+                for o in range(len(ob)):
+                    if len(ob[o]) != n or not feq(fo[r][o], ob[o][r]):
+                        bad = f"row {r} of {n}: output[{o}] = {ob[o][r] if len(ob[o]) == n else ob[o]}, {fo[r][o]} when the row is processed alone after the rows before it"
+                        break
+                if bad:
+                    break
+                for o in range(len(fb)):
+                    if [(a, b) for a, _, b in fb[o]] != [(a, b) for a, _, b in ff[r][o]] or any(len(d) != n or not feq(x[1], d[r]) for (_, d, _), x in zip(fb[o], ff[r][o])):
+                        bad = f"row {r} of {n}: fuzzy[{o}] differs from the fuzzy output of the row processed alone"
+                        break
+                if bad:
+                    break
+            if bad:
+                ctx.violation(f"large-batch/{mode}/{nm.split('+')[0]}", {"engine": E, "rows": [rows[r]] if bad.startswith("row") else [], "batch_length": n}, None, bad, note=f"{nm}: {bad}")
+    ctx.extra["large_batches"] = big
     ctx.extra["histories"] = len(cases)
     ctx.rule = ("seeded histories of 3-4 rows (one of 8 = the resolution) per General engine of the C01 catalogue and its lock-previous/default/lock-range variants; "
                 "each history in float mode and under every composition into batches, set per variable and through input_values; non-trivial = some rule contributes")
